@@ -28,6 +28,10 @@
    that a call left the envelope: it entered (not re-entrantly) with an empty context list (an event sent
    to an unregistered model of a LockedMachine) or with a context object configured twice.
 
+   Context managers are user code: for any (call, context) the __enter__ may refuse (raise instead of acquiring:
+   ExitStack then unwinds what was entered so far, the call raises, nothing is processed) and the __exit__ may
+   raise after releasing (the remaining contexts are still left); [cfail]/[xfail] range over all such patterns.
+
    Assumed, not modelled (the property is PARTIAL): threading.Lock behaves as the mutex below,
    get_ident() is constant per thread and never 0, attribute reads/writes are atomic (GIL).
    Definitions only. *)
@@ -83,6 +87,12 @@ Section Lock.
   Variable resume : K -> MS -> MS * list I * status.   (* one atomic segment *)
   Variable ret : K -> R -> K.                          (* hand a nested call's result to the caller *)
   Variable reg : MS -> nat -> option (list nat).       (* model_context_map: model -> its model contexts *)
+  (* context managers are user code too: __enter__ may refuse (raise) instead of acquiring, __exit__ may raise
+     after releasing.  A call enters each of its contexts at most once, so (call, context) names the occurrence. *)
+  Variable cfail : call -> ctx -> bool.                (* __enter__ of this context raises for this call *)
+  Variable xfail : call -> ctx -> bool.                (* __exit__ of this context raises for this call *)
+  Variable r_refused : call -> ctx -> R.               (* what the call then raises *)
+  Variable r_exit : call -> ctx -> R -> R.             (* ExitStack: the exception raised by __exit__ replaces r *)
 
   (* what the code enters for a call, given the machine state it reads the map from *)
   Definition ctxs_of (cfg : lcfg) (ms : MS) (c : call) : list ctx :=
@@ -183,6 +193,7 @@ Section Lock.
   | EvAcq (t : nat) (x : ctx)
   | EvRel (t : nat) (x : ctx)
   | EvBlocked (t : nat) (x : ctx)
+  | EvRefuse (t : nat) (x : ctx)
   | EvSeg (t : nat) (c : call) (its : list I)
   | EvRet (t : nat) (c : call) (r : R).
 
@@ -196,7 +207,8 @@ Section Lock.
     g_log : list lev;             (* ghost, newest last *)
     g_acq : list (nat * call);    (* ghost: top-level calls in order of their first acquisition *)
     g_done : list dentry;         (* ghost: completed top-level calls, in order of completion *)
-    g_bad : bool                  (* ghost: some call left the envelope (see header) *)
+    g_bad : bool;                 (* ghost: some call left the envelope (see header) *)
+    g_fin : list (nat * call * bool)  (* ghost: finished top-level calls in order; false = refused by a context *)
   }.
 
   Definition upd {A} (f : nat -> A) (k : nat) (v : A) : nat -> A :=
@@ -235,6 +247,15 @@ Section Lock.
     match a_phase a with
     | PAcq [] => (s, OStay (mkAct c (PRun (start c)) (a_held a) (a_ctxs a)), [])
     | PAcq (CLock l :: todo) =>
+        if cfail c (CLock l)
+        then (* ExitStack unwinds what was entered so far; nothing is processed *)
+             let s' := mkSh (sh_ms s) (sh_own s) (sh_ident s) (sh_log s ++ [EvRefuse tid (CLock l)]) in
+             match a_held a with
+             | [] => (mkSh (sh_ms s) (sh_own s) (sh_ident s)
+                           (sh_log s' ++ [EvRet tid c (r_refused c (CLock l))]), OComplete (r_refused c (CLock l)), [])
+             | _ => (s', OStay (mkAct c (PRel (r_refused c (CLock l))) (a_held a) (a_ctxs a)), [])
+             end
+        else
         if Nat.eqb (sh_own s l) 0
         then (mkSh (sh_ms s) (upd (sh_own s) l tid) (sh_ident s) (sh_log s ++ [EvAcq tid (CLock l)]),
               OStay (mkAct c (after_acq c todo) (CLock l :: a_held a) (a_ctxs a)), [])
@@ -263,9 +284,10 @@ Section Lock.
         | x :: h =>
             let own' := match x with CLock l => upd (sh_own s) l 0 | CIdent => sh_own s end in
             let id' := match x with CLock _ => sh_ident s | CIdent => 0 end in
+            let r' := if xfail c x then r_exit c x r else r in
             match h with
-            | [] => (mkSh (sh_ms s) own' id' (sh_log s ++ [EvRel tid x; EvRet tid c r]), OComplete r, [])
-            | _ => (mkSh (sh_ms s) own' id' (sh_log s ++ [EvRel tid x]), OStay (mkAct c (PRel r) h (a_ctxs a)), [])
+            | [] => (mkSh (sh_ms s) own' id' (sh_log s ++ [EvRel tid x; EvRet tid c r']), OComplete r', [])
+            | _ => (mkSh (sh_ms s) own' id' (sh_log s ++ [EvRel tid x]), OStay (mkAct c (PRel r') h (a_ctxs a)), [])
             end
         end
     end.
@@ -291,7 +313,7 @@ Section Lock.
             let mk := fun cur nest bad =>
               mkG (sh_ms s') (sh_own s') (sh_ident s')
                   (upd (g_th g) tid (mkThread (t_prog th) cur nest (t_items th ++ its)))
-                  (sh_log s') (g_acq g) (g_done g) (g_bad g || bad) in
+                  (sh_log s') (g_acq g) (g_done g) (g_bad g || bad) (g_fin g) in
             match o with
             | OStay a' => mk (t_cur th) (a' :: restn) false
             | OPush a' b bad => mk (t_cur th) (b :: a' :: restn) bad
@@ -309,26 +331,39 @@ Section Lock.
             match act_step tid a s with
             | (s', o, its) =>
                 let items' := t_items th ++ its in
-                let mk := fun cur nest items acq done bad =>
+                let mk := fun cur nest items acq done bad fin =>
                   mkG (sh_ms s') (sh_own s') (sh_ident s')
                       (upd (g_th g) tid (mkThread (t_prog th) cur nest items))
-                      (sh_log s') acq done (g_bad g || bad) in
+                      (sh_log s') acq done (g_bad g || bad) fin in
                 match o with
                 | OStay a' =>
                     mk (Some a') [] items'
-                       (if first_acq a a' then g_acq g ++ [(tid, a_call a)] else g_acq g)
+                       (match a_phase a, a_phase a' with
+                        | PAcq _, PRel _ => removelast (g_acq g)        (* refused after the first acquisition *)
+                        | _, _ => if first_acq a a' then g_acq g ++ [(tid, a_call a)] else g_acq g
+                        end)
                        (match a_phase a, a_phase a' with
                         | PRun _, PRel r => g_done g ++ [mkDone tid (a_call a) r items']
                         | _, _ => g_done g
                         end) false
-                | OPush a' b bad => mk (Some a') [b] items' (g_acq g) (g_done g) bad
+                       (match a_phase a, a_phase a' with
+                        | PRun _, PRel _ => g_fin g ++ [(tid, a_call a, true)]
+                        | PAcq _, PRel _ => g_fin g ++ [(tid, a_call a, false)]
+                        | _, _ => g_fin g
+                        end)
+                | OPush a' b bad => mk (Some a') [b] items' (g_acq g) (g_done g) bad (g_fin g)
                 | OComplete r =>
                     mk None [] items' (g_acq g)
                        (match a_phase a with
                         | PRun _ => g_done g ++ [mkDone tid (a_call a) r items']
                         | _ => g_done g
                         end) false
-                | OBlocked => mk (Some a) [] items' (g_acq g) (g_done g) false
+                       (match a_phase a with
+                        | PRun _ => g_fin g ++ [(tid, a_call a, true)]
+                        | PAcq _ => g_fin g ++ [(tid, a_call a, false)]
+                        | PRel _ => g_fin g
+                        end)
+                | OBlocked => mk (Some a) [] items' (g_acq g) (g_done g) false (g_fin g)
                 end
             end
         | None =>
@@ -337,7 +372,7 @@ Section Lock.
             | c :: rest =>
                 mkG (g_ms g) (g_own g) (g_ident g)
                     (upd (g_th g) tid (mkThread rest (Some (enter_call (g_ms g) (g_ident g) tid c)) [] []))
-                    (g_log g) (g_acq g) (g_done g) (g_bad g || entry_bad (g_ms g) (g_ident g) tid c)
+                    (g_log g) (g_acq g) (g_done g) (g_bad g || entry_bad (g_ms g) (g_ident g) tid c) (g_fin g)
             end
         end
     end.
@@ -345,7 +380,7 @@ Section Lock.
   Definition run (sched : list nat) (g : gstate) : gstate := fold_left (fun g t => step t g) sched g.
 
   Definition init (progs : nat -> list call) (ms : MS) : gstate :=
-    mkG ms (fun _ => 0) 0 (fun t => mkThread (progs t) None [] []) [] [] [] false.
+    mkG ms (fun _ => 0) 0 (fun t => mkThread (progs t) None [] []) [] [] [] false [].
 
   (* ------------------------------------------------------------------ observers used by the theorems *)
   Definition held (g : gstate) (t : nat) : list ctx :=
@@ -362,7 +397,7 @@ Section Lock.
   Definition blocked (g : gstate) (tid : nat) : bool :=
     match top_act (g_th g tid) with
     | Some a => match a_phase a with
-                | PAcq (CLock l :: _) => negb (Nat.eqb (g_own g l) 0)
+                | PAcq (CLock l :: _) => negb (cfail (a_call a) (CLock l)) && negb (Nat.eqb (g_own g l) 0)
                 | _ => false
                 end
     | None => false
